@@ -154,6 +154,10 @@ func IsSymbolic() bool            { return false }
 func MapOrder(on bool)            {}
 func SetUnwind(n int)             {}
 func Note(s string)               {}
+
+// Setenv / Unsetenv set the process environment of the node being simulated.
+func Setenv(name, value string) { os.Setenv(name, value) }
+func Unsetenv(name string)      { os.Unsetenv(name) }
 func Dump(name string, v any)     {}
 
 func IteU64(c bool, a, b uint64) uint64 {
